@@ -14,8 +14,15 @@ func vDeep(stage, pathCap, maxSeg int) (int, int, int) {
 	return stage, pathCap, maxSeg
 }
 
+// vMinSegs: the longest template of the table most recently handed to vNewH, in segments; the segment bound of a
+// symbolic path is never smaller (a table with a three-segment root path needs four)
+var vMinSegs int
+
 func vSymRequest(stage, pathCap, maxSeg int, samples []string) vReq {
 	stage, pathCap, maxSeg = vDeep(stage, pathCap, maxSeg)
+	if vMinSegs > maxSeg {
+		maxSeg = vMinSegs
+	}
 	q := vReq{}
 	q.method = nondetString("method", 7)
 	if stage == 1 {
@@ -46,6 +53,23 @@ func H_C01(tbl, router, stage int) {
 		pathCap = 8
 	}
 	q := vSymRequest(stage, pathCap, 3, vSamplePaths(h.flat))
+	// If-conditions are evaluated for every request: an earlier request with the same method, URL and headers for which
+	// every condition held must not decide this one
+	hasCond := false
+	for _, f := range h.flat {
+		hasCond = hasCond || f.route.cond
+	}
+	if hasCond && nondetBool("earlier") {
+		saved := h.cond
+		h.cond = make([]bool, len(saved))
+		for i := range h.cond {
+			h.cond[i] = true
+		}
+		h.dispatch(c, vNewRec(), q.http())
+		h.cond = saved
+		h.invoked, h.selPath, h.selMeth, h.params, h.panicked = nil, nil, nil, nil, false
+		verifCover("after-earlier-request")
+	}
 	rec := vNewRec()
 	h.dispatch(c, rec, q.http())
 	if h.panicked {
